@@ -101,13 +101,53 @@ def synth_case(rng):
             "parent": parent, "child": child, "liks": liks}
 
 
+def maybe_exotic(rng, ts, frac=0.45, p=0.35, kinds=None):
+    """valid-but-unusual decorations (vlib.gen.exotic) on a fraction of the tree sequences"""
+    if rng.random() >= frac:
+        return ts, []
+    return gen.exotic(rng, ts, kinds=kinds, p=p)
+
+
+def tie_times(rng, ts):
+    """same tree sequence with non-sample node times moved up to a coarse grid (many unrelated nodes
+    share a NON-ZERO age) while every parent stays strictly above its children"""
+    import tskit
+    step = rng.choice([0.25, 0.5, 1.0]) * max(float(ts.max_root_time), 1e-3) / rng.choice([2, 4, 8])
+    t = np.array(ts.nodes_time, dtype=float)
+    new = t.copy()
+    is_sample = (ts.nodes_flags & tskit.NODE_IS_SAMPLE) != 0
+    kids = {}
+    for e in ts.edges():
+        kids.setdefault(e.parent, set()).add(e.child)
+    for u in sorted(range(ts.num_nodes), key=lambda v: t[v]):
+        if is_sample[u]:
+            continue
+        g = math.ceil(t[u] / step) * step
+        low = max([new[c] for c in kids.get(u, [])] + [0.0])
+        while g <= low:
+            g += step
+        new[u] = g
+    tables = ts.dump_tables()
+    tables.nodes.time = new
+    tables.mutations.time = np.full(tables.mutations.num_rows, tskit.UNKNOWN_TIME)
+    tables.sort()
+    tables.build_index()
+    tables.compute_mutation_parents()
+    return tables.tree_sequence()
+
+
 def ts_case(rng, ts=None):
     """a simulated topology with count_mutations rows and perturbed node times"""
     import tskit
     import tsdate.rescaling as R
     if ts is None:
         ts = gen.sim_ts(rng, historical=rng.random() < 0.2)
-    style = rng.choice(["noise", "ties", "valid", "valid", "tiny", "big"])
+    ts, kinds = maybe_exotic(rng, ts)
+    style = rng.choice(["noise", "ties", "valid", "valid", "tiny", "big", "grid"])
+    if style == "grid":                                   # valid times with ties at non-zero ages
+        ts = tie_times(rng, ts)
+        style = "valid"
+        kinds = kinds + ["tied_times"]
     t, style = gen.random_times(rng, ts, style)
     t = [abs(float(x)) for x in t]
     fixed = [bool(f & tskit.NODE_IS_SAMPLE) for f in ts.nodes_flags]
@@ -116,7 +156,7 @@ def ts_case(rng, ts=None):
     liks = [[float(a), float(b) * mu] for a, b in liks]
     if len(set(t)) < 2:
         t[-1] = max(t) + 1.0
-    return {"kind": "ts/" + style, "t": t, "fixed": fixed,
+    return {"kind": "ts/" + style + ("+exotic" if kinds else ""), "exotic": kinds, "t": t, "fixed": fixed,
             "parent": [int(x) for x in ts.edges_parent], "child": [int(x) for x in ts.edges_child],
             "liks": liks}
 
@@ -605,3 +645,67 @@ def model_rescale_ts(ctx, items):
         else:
             conv.append(([float(v) for v in r[1][0]], [float(v) for v in r[1][1]]))
     return conv
+
+
+# ------------------------------------------------------------------ one iteration at a time
+def model_steps(ctx, items):
+    """one iteration of the rescaling loop (mutational_timescale + piecewise_scale_point_estimate)
+    from the node times the implementation had at that iteration.  Per-iteration rather than
+    whole-loop, because rounding differences of 1 ulp can turn two equal rescaled times into two
+    distinct ones, which changes the epoch structure of the NEXT iteration (and the meaning of its
+    recorded changepoint indexes).  -> None | (x', ob, rb)"""
+    terms = []
+    for it in items:
+        terms.append("rescale_loop FNum %s %s %s [%s] %s None" % (
+            c_liks(it["liks"]), c_edges(it), clist(it["fixed"], cbool), clist(it["cps"], cnat), c_floats(it["t"])))
+    out = []
+    for i in range(0, len(terms), 100):
+        body = "Definition cases := %s.\nEval vm_compute in cases.\n" % clist(terms[i:i + 100])
+        out += ctx.coq_eval(body, requires=REQ, tag="step")[0]
+    conv = []
+    for r in out:
+        if r is None:
+            conv.append(None)
+        else:
+            x, last = r[1]
+            ob, rb = last[1]
+            conv.append(([float(v) for v in x], [float(v) for v in ob], [float(v) for v in rb]))
+    return conv
+
+
+def model_recover(ctx, items):
+    """the breakpoint recovery of ExpectationPropagation.rescale: items with means, fixed, x, rb"""
+    terms = ["recover_breaks FNum %s %s %s %s" % (c_floats(it["means"]), clist(it["fixed"], cbool),
+                                                  c_floats(it["x"]), c_floats(it["rb"])) for it in items]
+    out = []
+    for i in range(0, len(terms), 150):
+        body = "Definition cases := %s.\nEval vm_compute in cases.\n" % clist(terms[i:i + 150])
+        out += ctx.coq_eval(body, requires=REQ, tag="recover")[0]
+    return [None if r is None else [float(v) for v in r[1]] for r in out]
+
+
+def loop_steps(calls, fixed, parent, child, liks=None):
+    """pair up the recorded mutational_timescale / piecewise_scale_point_estimate calls of one run:
+    -> list of dicts (model input + recorded outputs), or None when a changepoint vector is unusable"""
+    tcalls = [c for c in calls if c[0] == "mutational_timescale"]
+    ecalls = [c for c in calls if c[0] == "piecewise_scale_point_estimate"]
+    steps = []
+    for k, (_nm, args, res) in enumerate(tcalls):
+        case, _area, cps = changepoints_of_call(args)
+        if cps is None:
+            return None
+        st = {"t": case["t"], "liks": liks if liks is not None else case["liks"], "parent": parent, "child": child,
+              "fixed": fixed, "cps": cps, "ts_res": res, "pe_res": ecalls[k][2] if k < len(ecalls) else None}
+        steps.append(st)
+    return steps
+
+
+def step_agrees(st, m, **tol):
+    """recorded outcome of one iteration vs the model's"""
+    if isinstance(st["ts_res"], Exception) or st["pe_res"] is None or isinstance(st["pe_res"], Exception):
+        return m is None
+    if m is None:
+        return False
+    return (close_list([float(v) for v in st["ts_res"][0]], m[1], **tol)
+            and close_list([float(v) for v in st["ts_res"][1]], m[2], **tol)
+            and close_list([float(v) for v in st["pe_res"]], m[0], **tol))
